@@ -48,7 +48,7 @@ func TestMain(m *testing.M) {
 			}
 		}
 	}
-	core.DeclareFaults("preemption", "preemption-inside-tink-call", "task-finished-handover", "free-run-fallback")
+	core.DeclareFaults("preemption", "preemption-inside-tink-call", "task-finished-handover", "free-run-fallback", "blocked-on-lock-handover")
 	core.DeclareProbes("globally-sourced-randomness(semantic oracle)", "legacy-adapter", "multi-key-keyset", "handle-reads", "construct-under-schedule",
 		"registry-lookup", "keygen-under-schedule", "accept-rejects-corrupted", "race-build", "monitored-handle", "monitoring-events-compared", "round-robin-plan", "site-targeted-plan", "reparse-construct-under-schedule", "prehash-signing-path")
 	// "keygen-not-a-function-of-the-reader(semantic oracle)" is not declared: it cannot occur while GODEBUG
@@ -192,6 +192,12 @@ func drawEntry(t *rapid.T, class string, label string) catalog.Entry {
 }
 
 func runSched(t *rapid.T) {
+	if lockPoisoned {
+		// an earlier run of this process ended in an established deadlock: nothing this process observes from now on is
+		// about the library (and a skipped candidate keeps rapid from "shrinking" towards runs that only fail because
+		// of the leftover locks)
+		t.Skip("an earlier deadlock left locks held in this process")
+	}
 	r := core.Begin(t)
 	g := simrng.New(rapid.Uint64().Draw(t, "rngSeed"))
 	restore := simrng.Install(g)
@@ -460,6 +466,17 @@ func runSched(t *rapid.T) {
 	// judge compares one concurrent execution with the sequential oracle; "" = agrees
 	judge := func(s *simsched.Sched, got [][]result, ev [][]simmon.Event) (string, string) {
 		kt := sh.class + "/" + sh.entry.KeyType
+		if s.Deadlock {
+			// every unfinished task was waiting for a lock and nothing moved for DeadlockGrace: calls that return when run
+			// alone never return under this schedule
+			var at []string
+			for i, site := range s.DeadlockAt {
+				if site >= 0 {
+					at = append(at, fmt.Sprintf("task %d at %s", i, siteName(site)))
+				}
+			}
+			return "C18/deadlock:" + kt, "under the schedule every unfinished task waits for a lock that none of them can release: " + strings.Join(at, ", ")
+		}
 		if len(s.Panics) > 0 {
 			return "C18/panic:" + kt, fmt.Sprintf("a task panicked under the schedule (not when run alone): %v", s.Panics[0])
 		}
@@ -505,11 +522,25 @@ func runSched(t *rapid.T) {
 	}
 
 	s, got, events, races := concurrentOnce()
+	if s.Deadlock {
+		// The tasks were unwound while they held locks, some of which may be process-wide: from here on library code
+		// can block for ever in this process, also outside a simulation. The verdict needs no confirmation run (every
+		// unfinished task failed TryLock a thousand times over DeadlockGrace); it is recorded at once, and every later
+		// run of this process — rapid's shrinking candidates and its confirming re-run included — is skipped (see the
+		// top of runSched). The replay re-runs the worker from its seed in a fresh process.
+		lockPoisoned = true
+		key, detail := judge(s, got, events)
+		r.Violation(key, detail)
+		t.Skip("deadlock listed as a known finding")
+	}
 	racesBefore, racesAfter := 0, races
 
 	// ---- oracles
 	inside := 0
 	for _, p := range s.Trace {
+		if p.Blocked {
+			r.Fault("blocked-on-lock-handover")
+		}
 		if p.Site >= 0 {
 			r.Fault("preemption")
 			inside++
@@ -594,6 +625,9 @@ func runSched(t *rapid.T) {
 	}
 	r.End(fmt.Sprintf("%s|%s|%s|ops:%s|tasks%d|pre%s|%x", scenario, sh.class, sh.entry.KeyType, strings.Join(uniq(opNames), ","), nTasks, passClass, hsh&0xffff), inside > 0)
 }
+
+// lockPoisoned: a run of this process ended in a deadlock (see runSched).
+var lockPoisoned bool
 
 func coldTwin(sh *shared, monitored bool) (*shared, error) {
 	ks := insecurecleartextkeyset.KeysetMaterial(sh.h)
